@@ -46,6 +46,39 @@ def classify(ast):
     return kinds
 
 
+POISON = [
+    # (expression, keys left out of the input values): evaluations that fail for OTHER reasons after having met an invalid composition
+    ("([1] O [501]) U ([502] U [503])[901]", []),  # invalid O, then a juxtaposition the evaluator does not implement
+    ("([1] X [501]) U [2]", ["2"]),  # invalid X, then a key the caller did not provide
+    ("([501] O [901]) U ([502] U [503])[902]", []),
+    ("[1] U ([502] U [503])[901]", []),
+    ("[7] U [8]", ["8"]),
+]
+
+
+def poison(ctx):
+    """what happened in an earlier, failed evaluation must not leak into the next one (outcomes of these calls are not judged)"""
+    from vf.monitors import REAL_OF
+    from ahbicht.models.condition_nodes import Hint, RequirementConstraint, UnevaluatedFormatConstraint
+
+    s, missing = ctx.rng.choice(POISON)
+    out = capture(parse_condition_expression_to_tree, s)
+    if out[0] != "ok":
+        return
+    nodes = {}
+    for k in ("1", "2", "7", "8"):
+        if k not in missing:
+            nodes[k] = RequirementConstraint(condition_key=k, conditions_fulfilled=REAL_OF["F"])
+    for k in ("501", "502", "503"):
+        nodes[k] = Hint(condition_key=k, hint="h" + k)
+    for k in ("901", "902"):
+        nodes[k] = UnevaluatedFormatConstraint(condition_key=k)
+    from ahbicht.expressions.requirement_constraint_expression_evaluation import evaluate_requirement_constraint_tree
+
+    capture(evaluate_requirement_constraint_tree, out[1], nodes)
+    ctx.count("failed_evaluations_in_between")
+
+
 def check_direct(ctx, case):
     """the direct evaluator under every assignment"""
     ast, s = case["ast"], case["s"]
@@ -203,6 +236,8 @@ async def run(ctx):
                 ast = [rng.choice(["and", "and", "or"]), ["rc", rng.choice(G.RC_POOL)], ast] if rng.random() < 0.5 else ast
             ctx.count("neutral_only_expressions")
         case = {"ast": ast, "s": G.render(ast, rng)}
+        if i % 5 == 0:
+            poison(ctx)
         check_direct(ctx, case)
         if i % 400 == 0:
             ctx.sample({"s": case["s"], "structurally_invalid": logic.structurally_invalid(ast), "why": sorted(classify(ast))}, cls="direct")
